@@ -378,6 +378,48 @@ theorem C09_observe_removes (s : St) (w : Nat) (i : WInfo) (o : Outcome)
   intro p hp
   simpa using (List.mem_filter.mp hp).2
 
+theorem C09_range_filterMap_getElem (l : List α) (start k : Nat) (h : start + k ≤ l.length) :
+    (List.range k).filterMap (fun i => l[start + i]?) = (l.drop start).take k := by
+  induction k with
+  | zero => simp
+  | succ k ih =>
+    rw [List.range_succ, List.filterMap_append, ih (by omega)]
+    have hlt : start + k < l.length := by omega
+    simp only [List.filterMap_cons, List.filterMap_nil, List.getElem?_eq_getElem hlt]
+    rw [List.take_add_one]
+    simp [List.getElem?_drop, List.getElem?_eq_getElem hlt]
+
+theorem C09_batching_transparent_from (bs : Nat) (hbs : 0 < bs) (l : List α) (fuel start : Nat)
+    (hf : l.length - start ≤ fuel) : checkOrder bs l start fuel = l.drop start := by
+  induction fuel generalizing start with
+  | zero =>
+    have : l.length ≤ start := by omega
+    simp [checkOrder, List.drop_eq_nil_of_le this]
+  | succ fuel ih =>
+    unfold checkOrder
+    by_cases hs : start < l.length
+    · simp only [hs, ite_true]
+      have he : start + (min (start + bs) l.length - start) ≤ l.length := by omega
+      rw [C09_range_filterMap_getElem l start _ he, ih (min (start + bs) l.length) (by omega)]
+      have : min (start + bs) l.length = start + (min (start + bs) l.length - start) := by omega
+      rw [this, ← List.drop_drop]
+      have := List.take_append_drop (min (start + bs) l.length - start) (l.drop start)
+      simpa using this
+    · simp only [hs, ite_false]
+      exact (List.drop_eq_nil_of_le (by omega)).symm
+
+/-- **Batching is transparent**: whatever the batch size (> 0) and however many rows the snapshot
+holds, the receipt check attributes exactly one result to every snapshot row, in order — in
+particular with the shipped batch size. -/
+theorem C09_batching_transparent (l : List α) :
+    checkOrder Extracted.batchSize l 0 l.length = l := by
+  have := C09_batching_transparent_from Extracted.batchSize (by decide) l l.length 0 (by omega)
+  simpa using this
+
+/-- the slip "index the snapshot without the batch offset" is not transparent -/
+example : (List.range 3).filterMap (fun i => [10, 11, 12, 13, 14][0 + i]?) ++
+    (List.range 2).filterMap (fun i => [10, 11, 12, 13, 14][0 + i]?) ≠ [10, 11, 12, 13, 14] := by decide
+
 /-- non-vacuity: mined, replaced, watched twice, reply in flight after shutdown, drain -/
 example : (run init [.send 1 11, .send 2 22, .watch 2 22, .reply 3 1 11 (.receipt 1), .observe 0,
     .reply 3 2 22 .notFound, .beginShutdown, .watch 5 55, .reply 9 2 22 (.receipt 1), .drain, .reply 9 1 11 .notFound]).length = 11 ∧
